@@ -202,7 +202,14 @@ pub fn strategy(prop: &'static str, thorough: bool) -> BoxedStrategy<CacheCase> 
                 prop::option::weighted(0.5, 1u8..4),
                 prop::option::weighted(0.5, 1u8..4),
                 any::<bool>(),
-                prop::collection::vec(write_op(1, 5, false), 3..20),
+                prop::collection::vec(
+                    prop_oneof![
+                        8 => write_op(1, 5, false),
+                        1 => (0u8..5).prop_map(|inst| Op::Unregister { w: 0, inst }),
+                        1 => (0u8..5).prop_map(|inst| Op::Dispose { w: 0, inst }),
+                    ],
+                    3..20,
+                ),
             )
                 .prop_map(move |(ms, mi, mspi, partitioned, ops)| {
                     // consistency: max_samples limited => max_samples_per_instance limited and <= max_samples
@@ -1425,7 +1432,12 @@ fn oracle_c25(c: &CacheCase, out: &Outcome, res: &mut CaseResult) {
                     // shape: how the two samples relate (a arrived before b)
                     let (a, b) = if v[a].0 < v[b].0 { (v[a], v[b]) } else { (v[b], v[a]) };
                     let shape = if out.taken_at.get(&a.0).map(|t| *t < out.written_at[&b.0]).unwrap_or(false) {
-                        "earlier-sample-already-taken"
+                        // was `a` still the most recent (by source timestamp) accepted sample when b arrived?
+                        if v.iter().any(|c| c.0 < b.0 && c.1 > a.1) {
+                            "taken-sample-older-than-the-most-recent-accepted-one"
+                        } else {
+                            "earlier-sample-already-taken"
+                        }
                     } else if b.1 < a.1 {
                         "later-arrival-has-older-timestamp"
                     } else {
@@ -1438,7 +1450,6 @@ fn oracle_c25(c: &CacheCase, out: &Outcome, res: &mut CaseResult) {
                             a.0, a.1, b.0, b.1, sep
                         ),
                     );
-                    return;
                 }
             }
         }
@@ -1454,7 +1465,6 @@ fn oracle_c25(c: &CacheCase, out: &Outcome, res: &mut CaseResult) {
                     "C25:isolated-sample-filtered".to_string(),
                     format!("instance {inst}: seq {} (ts {} ticks) is at least {} ticks (1 tick = 1953125 ns) away from every other sample of the instance but was never presented", v[a].0, v[a].1, sep),
                 );
-                return;
             }
         }
     }
@@ -1584,10 +1594,25 @@ async fn writer_limits_scenario(c: CacheCase) -> WLimObs {
                 exec::sleep_ms(5).await;
             }
         }
+        // unregister/dispose of an instance the writer knows: the held data samples stay held. Recorded as
+        // seq 0 with the operation name (errors such as BadParameter for an unknown instance are not judged here).
+        if let Op::Unregister { inst, .. } | Op::Dispose { inst, .. } = op {
+            let sample = KeyedData { id: *inst, seq: 0, blob: vec![] };
+            let unregister = matches!(op, Op::Unregister { .. });
+            let res = if unregister {
+                crate::util::timeout(5_000, w.unregister_instance(sample, None)).await.done().map(|r| r.is_ok())
+            } else {
+                crate::util::timeout(5_000, w.dispose(sample, None)).await.done().map(|r| r.is_ok())
+            };
+            match res {
+                Some(ok) => o.results.push((*inst, 0, format!("{}:{}", if unregister { "unregister" } else { "dispose" }, if ok { "Ok" } else { "Err" }))),
+                None => o.results.push((*inst, 0, "NeverReturned".to_string())),
+            }
+        }
     }
     with_world(|w| w.net.endpoints[1].connected = true);
     let mut waited = 0;
-    let ok: Vec<u32> = o.results.iter().filter(|r| r.2 == "Ok").map(|r| r.1).collect();
+    let ok: Vec<u32> = o.results.iter().filter(|r| r.2 == "Ok" && r.1 > 0).map(|r| r.1).collect();
     loop {
         if let Ok(samples) = r.take(10_000, ANY_SAMPLE_STATE, ANY_VIEW_STATE, ANY_INSTANCE_STATE).await {
             for s in samples {
@@ -1618,7 +1643,21 @@ fn eval_writer_limits(case: &CacheCase) -> CaseResult {
                 let mut per: BTreeMap<u8, u32> = BTreeMap::new();
                 let mut total = 0u32;
                 let mut refused = false;
+                // instances unregistered (successfully) and not written since: whether they still occupy an
+                // instance slot while their samples are unacknowledged is not stated -> max_instances is then not judged
+                let mut unregistered: BTreeSet<u8> = BTreeSet::new();
                 for (inst, seq, name) in &o.results {
+                    if *seq == 0 {
+                        if name == "NeverReturned" {
+                            res.fail("C19:writer:unexpected-result:NeverReturned".to_string(), format!("dispose/unregister of instance {inst} never returned"));
+                            break;
+                        }
+                        if name == "unregister:Ok" {
+                            unregistered.insert(*inst);
+                            res.class("writer_unregister");
+                        }
+                        continue;
+                    }
                     let new_instance = !per.contains_key(inst);
                     let over_instances = new_instance && wl.max_instances.map(|m| per.len() as u32 >= m as u32).unwrap_or(false);
                     let over_mspi = wl.mspi.map(|m| per.get(inst).copied().unwrap_or(0) >= m as u32).unwrap_or(false);
@@ -1629,12 +1668,15 @@ fn eval_writer_limits(case: &CacheCase) -> CaseResult {
                         break;
                     }
                     if wl.partitioned {
-                        if must_refuse && name == "Ok" {
+                        let instances_unclear = !unregistered.is_empty() && wl.max_instances.is_some();
+                        if instances_unclear && !(over_mspi || over_samples) {
+                            // either result is accepted
+                        } else if must_refuse && name == "Ok" {
                             let which = if over_instances { "max_instances" } else if over_mspi { "max_samples_per_instance" } else { "max_samples" };
                             res.fail(format!("C19:writer:accepted-beyond-{which}"), format!("write of seq {seq} (instance {inst}) returned Ok although the writer already holds {total} unacknowledged samples ({:?} per instance), limits {wl:?}", per));
                             break;
                         }
-                        if !must_refuse && name != "Ok" {
+                        if !instances_unclear && !must_refuse && name != "Ok" {
                             res.fail("C19:writer:refused-within-limits".to_string(), format!("write of seq {seq} (instance {inst}) returned {name} although no limit is reached (holding {total}, {:?}), limits {wl:?}", per));
                             break;
                         }
@@ -1642,13 +1684,14 @@ fn eval_writer_limits(case: &CacheCase) -> CaseResult {
                     if name == "Ok" {
                         *per.entry(*inst).or_insert(0) += 1;
                         total += 1;
+                        unregistered.remove(inst);
                     } else {
                         refused = true;
                         res.class("write_refused");
                     }
                 }
                 if res.verdict.is_none() {
-                    let ok: Vec<u32> = o.results.iter().filter(|r| r.2 == "Ok").map(|r| r.1).collect();
+                    let ok: Vec<u32> = o.results.iter().filter(|r| r.2 == "Ok" && r.1 > 0).map(|r| r.1).collect();
                     let missing: Vec<u32> = ok.iter().filter(|s| !o.delivered.contains(s)).copied().collect();
                     let leaked: Vec<u32> = o.delivered.iter().filter(|s| !ok.contains(s)).copied().collect();
                     if !leaked.is_empty() {
